@@ -171,6 +171,7 @@ def schedule_world(seed, strategy, scratch, **kw):
     s.spawn('r', reader)
     s.spawn('p', packer('p'))
     s.spawn('p2', packer('p2'))
+    s.spawn('p3', packer('p3'))       # (a refused pack must not make room for a third one)
     try:
         ok = s.run(60)
     finally:
